@@ -1,6 +1,6 @@
 """C04 -- multiply returns the pointwise product or refuses (structural clauses)."""
 from ..core import Ctx, Ob, PropSpec
-from ..rules import extra, l1, r2, r7, r8, r7i, r7p, r4r
+from ..rules import extra, l1, r2, r7, r8, r7i, r7p, r4r, l2
 
 
 def run(ctx: Ctx) -> list[Ob]:
@@ -18,6 +18,7 @@ def run(ctx: Ctx) -> list[Ob]:
     obs += r7i.rewiring_order(ctx, ['multiply'])
     obs += r7p.run(ctx)
     obs += r4r.operator_rule_shapes(ctx, {'MULTIPLICATION'})
+    obs += l2.run(ctx)
     return obs
 
 
@@ -32,9 +33,9 @@ SPEC = PropSpec(
         "every valuation, the NotImplementedError refusals dominate construction; R7a: the pairing of the inputs of two product "
         "layers must not sort by Scope while Scope.__lt__ is the partial subset order (crosswise pairing of same-scope inputs listed "
         "in different order); L1: column layout of the weight of a product of two sum layers vs. the order in which multiply lists "
-        "its inputs. R7i: every comprehension over <circuit>.layer_inputs(<layer>) that re-wires a copied layer in this operator is an order-preserving total map (no `if` filter, not concatenated, not sorted / reversed / made a set): product layers and sum weights are positional. R7p (side typing of multiply: layers of sc1 / sc2, pairs, sequences of pairs, derived by def-use from the two parameters): every key of the pair->block table is a (layer of sc1, layer of sc2) pair -- never the swapped pair, whose block has its units in the other Kronecker order --, the layer rule is retrieved for (type(l1), type(l2)) and called as func(l1, l2). R4r (symbolic shape interpretation of the operator rules, nothing executed): each multiplication layer rule, applied to abstract operand layers built by interpreting the symbolic layer constructors on symbolic sizes (every parameterisation: probs / logits, optional log-partition, arity 1..3), composes parameter nodes only with operands of the shapes the nodes were built for, hands the resulting layer parameters of exactly the shape its constructor validates (for all sizes, not only when two sizes coincide) and returns a layer with Ko1 * Ko2 output units."
+        "its inputs. R7i: every comprehension over <circuit>.layer_inputs(<layer>) that re-wires a copied layer in this operator is an order-preserving total map (no `if` filter, not concatenated, not sorted / reversed / made a set): product layers and sum weights are positional. R7p (side typing of multiply: layers of sc1 / sc2, pairs, sequences of pairs, derived by def-use from the two parameters): every key of the pair->block table is a (layer of sc1, layer of sc2) pair -- never the swapped pair, whose block has its units in the other Kronecker order --, the layer rule is retrieved for (type(l1), type(l2)) and called as func(l1, l2). R4r (symbolic shape interpretation of the operator rules, nothing executed): each multiplication layer rule, applied to abstract operand layers built by interpreting the symbolic layer constructors on symbolic sizes (every parameterisation: probs / logits, optional log-partition, arity 1..3), composes parameter nodes only with operands of the shapes the nodes were built for, hands the resulting layer parameters of exactly the shape its constructor validates (for all sizes, not only when two sizes coincide) and returns a layer with Ko1 * Ko2 output units. L2 (layout typing with value tracking of index arrays): the constant permutation weight multiply_kronecker_layers builds with numpy (identity / arange, reshape, transpose, fancy indexing) has its columns laid out like the Kronecker layer of pair blocks ([i_1, j_1, .., i_n, j_n], sizes K1, K2, ..) and maps them to the Kronecker order of (operand 1, operand 2) = [i_1..i_n, j_1..j_n], for arity 2 and 3 -- an inverse or otherwise different permutation has the same shape and is invisible whenever K1 == K2."
     ),
     not_decided="Gaussian product statistics, polynomial convolution, the numerical content of the parameter operators (C14).",
     run=run,
-    floors={"R4r": 25, "R7i": 2, "R7p": 8, "R2a": 20, "R2c": 10, "R2f": 20, "R8": 2, "L1": 1},
+    floors={"L2": 2, "R4r": 25, "R7i": 2, "R7p": 8, "R2a": 20, "R2c": 10, "R2f": 20, "R8": 2, "L1": 1},
 )
